@@ -475,17 +475,17 @@ impl<D: TextDecorator> SubRenderer<D> {
                 let ghost lc = l; //@w
                 proof { assert(lc == ls@[it.index@]); assert(lc.len <= self.width || lc.len <= 2); } //@w
                 self.add_line(RenderLine::Text(l));
-                proof { //@w[
-                    assert(self.lines@.drop_last() == before);
-                    assert forall|i: int| 0 <= i < before.len() implies self.lines@[i] == before[i] by { assert(self.lines@.drop_last()[i] == self.lines@[i]); }
-                    assert(self.lines@.last() matches RenderLine::Text(t) && t.len == lc.len);
-                    assert(self.lines@.last() is Text);
-                    assert(self.lines@.last() == self.lines@[before.len() as int]);
-                    assert(short_line(self.lines@[before.len() as int], self.width));
-                    assert forall|i: int| old(self).lines@.len() <= i < self.lines@.len() implies short_line(#[trigger] self.lines@[i], self.width) by {
-                        if i < before.len() { assert(self.lines@[i] == before[i]); assert(short_line(before[i], self.width)); }
-                    }
-                } //@w]
+                proof { //@w
+                    assert(self.lines@.drop_last() == before); //@w
+                    assert forall|i: int| 0 <= i < before.len() implies self.lines@[i] == before[i] by { assert(self.lines@.drop_last()[i] == self.lines@[i]); } //@w
+                    assert(self.lines@.last() matches RenderLine::Text(t) && t.len == lc.len); //@w
+                    assert(self.lines@.last() is Text); //@w
+                    assert(self.lines@.last() == self.lines@[before.len() as int]); //@w
+                    assert(short_line(self.lines@[before.len() as int], self.width)); //@w
+                    assert forall|i: int| old(self).lines@.len() <= i < self.lines@.len() implies short_line(#[trigger] self.lines@[i], self.width) by { //@w
+                        if i < before.len() { assert(self.lines@[i] == before[i]); assert(short_line(before[i], self.width)); } //@w
+                    } //@w
+                } //@w
             }
 
             vec_extend(&mut self.pending_frags, frags);
@@ -759,30 +759,29 @@ impl<D: TextDecorator> SubRenderer<D> {
 
         let mut prefixes = prefixes0;
         let olines = ll_into_vec(other.into_lines()?);
-        proof { //@w[
-            assert forall|i: int| 0 <= i < olines@.len() implies (match #[trigger] olines@[i] { RenderLine::Text(t) => t.len <= 0x2000_0000_0000_0000, RenderLine::Line(b) => b.w <= 0x2000_0000_0000_0000 }) by {
-                if i < other.lines@.len() { assert(olines@.take(other.lines@.len() as int)[i] == olines@[i]); assert(olines@[i] == other.lines@[i]); } else { assert(short_line(olines@[i], other.width)); }
-            }
-        } //@w]
+        proof { //@w
+            assert forall|i: int| 0 <= i < olines@.len() implies (match #[trigger] olines@[i] { RenderLine::Text(t) => t.len <= 0x2000_0000_0000_0000, RenderLine::Line(b) => b.w <= 0x2000_0000_0000_0000 }) by { //@w
+                if i < other.lines@.len() { assert(olines@.take(other.lines@.len() as int)[i] == olines@[i]); assert(olines@[i] == other.lines@[i]); } else { assert(short_line(olines@[i], other.width)); } //@w
+            } //@w
+        } //@w
         for line in it: olines
-            invariant //@w[
-                it.seq() == olines@, tag_ok::<Vec<D::Annotation>>(), self.sr_inv(),
-                self.same_stacks(old(self)) && self.same_config(old(self)), tag@ == old(self).ann_stack@,
-                lines_ok(olines@, other.width, other.options.allow_width_overflow),
-                forall|i: int| 0 <= i < olines@.len() ==> (match #[trigger] olines@[i] { RenderLine::Text(t) => t.len <= 0x2000_0000_0000_0000, RenderLine::Line(b) => b.w <= 0x2000_0000_0000_0000 }),
-                other.options.allow_width_overflow == self.options.allow_width_overflow, other.width <= 0x1000_0000_0000_0000,
-                prefixes.pos() >= prefixes0.pos(), forall|k: int| prefixes.at(k) == prefixes0.at(k),
-                forall|k: int| k >= prefixes0.pos() ==> short(#[trigger] prefixes0.at(k)) && str_some(prefixes0.at(k)) && (sw(prefixes0.at(k)) + other.width <= self.width || self.options.allow_width_overflow),
-                self.lines@.len() >= old(self).lines@.len() && self.lines@.take(old(self).lines@.len() as int) =~= old(self).lines@,
-            //@w]
+            invariant //@w
+                it.seq() == olines@, tag_ok::<Vec<D::Annotation>>(), self.sr_inv(), //@w
+                self.same_stacks(old(self)) && self.same_config(old(self)), tag@ == old(self).ann_stack@, //@w
+                lines_ok(olines@, other.width, other.options.allow_width_overflow), //@w
+                forall|i: int| 0 <= i < olines@.len() ==> (match #[trigger] olines@[i] { RenderLine::Text(t) => t.len <= 0x2000_0000_0000_0000, RenderLine::Line(b) => b.w <= 0x2000_0000_0000_0000 }), //@w
+                other.options.allow_width_overflow == self.options.allow_width_overflow, other.width <= 0x1000_0000_0000_0000, //@w
+                prefixes.pos() >= prefixes0.pos(), forall|k: int| prefixes.at(k) == prefixes0.at(k), //@w
+                forall|k: int| k >= prefixes0.pos() ==> short(#[trigger] prefixes0.at(k)) && str_some(prefixes0.at(k)) && (sw(prefixes0.at(k)) + other.width <= self.width || self.options.allow_width_overflow), //@w
+                self.lines@.len() >= old(self).lines@.len() && self.lines@.take(old(self).lines@.len() as int) =~= old(self).lines@, //@w
         {
             let ghost pk = prefixes.pos(); //@w
-            proof { //@w[
-                assert(rl_ok(olines@[it.index@], other.width, other.options.allow_width_overflow));
-                assert(prefixes.at(pk) == prefixes0.at(pk));
-                assert(short(prefixes0.at(pk)) && str_some(prefixes0.at(pk)) && (sw(prefixes0.at(pk)) + other.width <= self.width || self.options.allow_width_overflow));
-                axiom_short_width(prefixes0.at(pk));
-            } //@w]
+            proof { //@w
+                assert(rl_ok(olines@[it.index@], other.width, other.options.allow_width_overflow)); //@w
+                assert(prefixes.at(pk) == prefixes0.at(pk)); //@w
+                assert(short(prefixes0.at(pk)) && str_some(prefixes0.at(pk)) && (sw(prefixes0.at(pk)) + other.width <= self.width || self.options.allow_width_overflow)); //@w
+                axiom_short_width(prefixes0.at(pk)); //@w
+            } //@w
             let prefix = prefixes.next_prefix();
             let newline = match line {
                     RenderLine::Text(tline0) => {
@@ -1308,5 +1307,101 @@ impl<D: TextDecorator> TextRenderer<D> {
     }
 //@end
 }
+
+// ---------------------------------------------------------------------------------------------
+// The Unicode strike-through text filter (C15): only adds U+0336 after characters that have a width
+// what the option is documented to do (C15): a combining strike mark after every character that occupies columns, nothing else
+spec fn strike(s: Seq<char>) -> Seq<char> decreases s.len() {
+    if s.len() == 0 { Seq::empty() } else {
+        strike(s.drop_last()) + (if cwn(s.last()) > 0 { seq![s.last(), '\u{336}'] } else { seq![s.last()] })
+    }
+}
+spec fn unstrike(s: Seq<char>) -> Seq<char> decreases s.len() {
+    if s.len() == 0 { Seq::empty() } else if s.last() == '\u{336}' { unstrike(s.drop_last()) } else { unstrike(s.drop_last()).push(s.last()) }
+}
+proof fn lemma_unstrike_concat(a: Seq<char>, b: Seq<char>)
+    ensures unstrike(a + b) =~= unstrike(a) + unstrike(b),
+    decreases b.len()
+{
+    if b.len() == 0 { assert(a + b =~= a); } else {
+        assert((a + b).drop_last() =~= a + b.drop_last());
+        lemma_unstrike_concat(a, b.drop_last());
+    }
+}
+// the text is unchanged apart from the added marks (C15: "only adds combining strike marks")
+proof fn lemma_strike_only_adds_marks(s: Seq<char>) //@w @C15 #strikeout_only_adds_marks
+    requires forall|i: int| 0 <= i < s.len() ==> s[i] != '\u{336}',
+    ensures unstrike(strike(s)) =~= s,
+    decreases s.len()
+{
+    if s.len() > 0 {
+        lemma_strike_only_adds_marks(s.drop_last());
+        let t = if cwn(s.last()) > 0 { seq![s.last(), '\u{336}'] } else { seq![s.last()] };
+        lemma_unstrike_concat(strike(s.drop_last()), t);
+        let c = s.last();
+        assert(c == s[s.len() - 1] && c != '\u{336}');
+        assert(unstrike(seq![c]) =~= seq![c]) by {
+            assert(seq![c].drop_last() =~= Seq::<char>::empty());
+            assert(seq![c].last() == c);
+            assert(unstrike(seq![c]) =~= unstrike(seq![c].drop_last()).push(c));
+        }
+        assert(unstrike(t) =~= seq![c]) by {
+            if cwn(c) > 0 {
+                assert(t.drop_last() =~= seq![c]);
+                assert(t.last() == '\u{336}');
+                assert(unstrike(t) =~= unstrike(t.drop_last()));
+            }
+        }
+        assert(s =~= s.drop_last() + seq![s.last()]);
+    }
+}
+// … and the layout does not change: the marks have no width (A2: U+0336 is a combining character)
+#[verifier::external_body]
+proof fn axiom_cw_strike_mark() ensures cw('\u{336}') == Some(0usize) {}
+proof fn lemma_strike_keeps_width(s: Seq<char>) //@w @C15 #strikeout_keeps_width
+    ensures sw(strike(s)) == sw(s),
+    decreases s.len()
+{
+    axiom_cw_strike_mark();
+    if s.len() > 0 {
+        lemma_strike_keeps_width(s.drop_last());
+        let t = if cwn(s.last()) > 0 { seq![s.last(), '\u{336}'] } else { seq![s.last()] };
+        lemma_sw_concat(strike(s.drop_last()), t);
+        lemma_sw_one(s.last());
+        if cwn(s.last()) > 0 {
+            assert(t =~= seq![s.last()] + seq!['\u{336}']);
+            lemma_sw_concat(seq![s.last()], seq!['\u{336}']);
+            lemma_sw_one('\u{336}');
+        }
+    }
+}
+
+//@item src/render/text_renderer.rs :: fn filter_text_strikeout
+//@sub /-> Option<String>/ ==> -> (r: Option<String>)
+//@sub /for c in s\.chars\(\)/ ==> for c in it: s.chars()
+//@auto C01 C15
+fn filter_text_strikeout(s: &str) -> (r: Option<String>)
+    ensures r matches Some(x) && x@ =~= strike(s@), //@w @C15 #strikeout_filter_spec
+{
+    let mut result = String::new();
+    for c in it: s.chars()
+        invariant result@ =~= strike(s@.take(it.index@)), //@w
+    {
+        proof { //@w[
+            let k = it.index@;
+            assert(s@.take(k + 1).drop_last() =~= s@.take(k));
+            assert(s@.take(k + 1).last() == c);
+        } //@w]
+        result.push(c);
+        if UnicodeWidthChar::width(c).unwrap_or(0) > 0 {
+            // This is a character with width (not a combining or other character)
+            // so add a strikethrough combiner.
+            result.push('\u{336}');
+        }
+    }
+    proof { assert(s@.take(s@.len() as int) =~= s@); } //@w
+    Some(result)
+}
+//@end
 } // verus!
 fn main() {}
